@@ -16,8 +16,9 @@ SCOPES = {
     # tier: (model-checking scope, graph-walk scope)
     "quick":    (dict(MaxLen=2, MaxIns=2, MaxHist=3, MaxSeq=3, MaxId=3),
                  dict(MaxLen=2, MaxIns=1, MaxHist=3, MaxSeq=3, MaxId=3)),
-    "thorough": (dict(MaxLen=3, MaxIns=2, MaxHist=3, MaxSeq=4, MaxId=4),
-                 dict(MaxLen=2, MaxIns=2, MaxHist=4, MaxSeq=4, MaxId=4)),
+    # (the first thorough scope tried - MaxSeq=4, MaxId=4 for the model and MaxHist=4 for the walk - did not finish in 55 min)
+    "thorough": (dict(MaxLen=3, MaxIns=2, MaxHist=3, MaxSeq=3, MaxId=4),
+                 dict(MaxLen=2, MaxIns=2, MaxHist=3, MaxSeq=4, MaxId=3)),
 }
 
 
